@@ -22,9 +22,18 @@ RULE = ('LLE: mixtures of 2-5 chemicals containing a partially miscible pair (wa
         'coefficient as an independent bound (eutectic-model); case type sle3: ramps of 1-4 calls on one solver WITHOUT resetting the rows (other T relative to Tm, T / H specification, given / computed / boundary solubilities '
         '0, 1, 1e-9, just enough to dissolve all, solvent amounts changed or removed, an absent package member added, activity coefficient changed between calls), every step judged and compared with a fresh solver from the same rows; '
         'object kinds MultiStream.sle, Stream.sle (single-phase stream converted) and equilibrium.SLE on a MolarFlowIndexer (activity_coefficient by constructor); packages Dortmund / UNIFAC / ideal Gamma / IdealThermo. '
+        'oracle audit (round 6) - LLE: equal activities judged per component (|a_l - a_L| / max(a_l, a_L) of every chemical present in both liquids); a result with one liquid (or two rows of one composition) is judged under '
+        'clause no-split against an independent stability certificate (own successive substitution with th.Gamma: a two-liquid state of equal activities whose Gibbs energy is lower than that of the homogeneous feed); the cache-hit class of a '
+        'history is decided from the generated inputs alone (last remembered call within 1e-3 K and 1e-5 in every mole fraction), not from the solver\'s attributes; violations of the default method carry the size class of the deviation '
+        '(and the Gibbs energy of the returned split relative to the feed / to the independent equilibrium) in the key. SLE: in every computed, non-pure call both observation points (solubility solve, solubility applied) must have been '
+        'passed (otherwise the run is inconclusive); with an activity model, T given and solid left the liquid must be a fixed point of the eutectic relation with the package\'s own activity coefficient (clause sle:solubility/eutectic-model/activity-model); '
+        'a raise is counted-not-judged only for FloatingPointError (SLE: only when no liquid other than the solute is present), with a ceiling per shard. '
         'non-trivial = two non-empty liquid phases (LLE) / solute partly dissolved or a pure solute (SLE); distinct = hash of the case')
 MIN_NONTRIVIAL = {'quick': 150, 'thorough': 3000}
-ASSUMPTIONS = ['equal-activity bound (relative to the largest activity): 1e-3 for every method; larger deviations of the Gibbs-minimising methods are classified by mechanism (component at the starting midpoint / Gibbs energy within 1e-6 of the polished minimum / beyond it) and reported under those keys', 'labels l/L are compared up to a swap when no top chemical is named']
+ASSUMPTIONS = ['equal-activity bound: 1e-3 for every method, per component (relative to the larger of the two activities of that component; before round 6: relative to the largest activity of all); larger deviations of the Gibbs-minimising methods are classified by mechanism (component at the starting midpoint / Gibbs energy within 1e-6 of the polished minimum / beyond it) and reported under those keys', 'labels l/L are compared up to a swap when no top chemical is named',
+               'no-split: a one-liquid result is reported only when the independent certificate lowers the Gibbs energy of mixing by more than 1e-4 RT per mole of feed (100 times the objective tolerance of the Gibbs-minimising methods); no certificate found = not shown unstable = held',
+               'eutectic-model/activity-model: |x - eutectic(T, gamma_solute(x))| <= 1e-4 x + 2e-5 (the solubility iteration stops on a change of x below 1e-6)',
+               'a probe (SLE._solve_x / SLE._update_solubility) that is not passed in a computed non-pure call, too few two-liquid results per LLE case or too many raises per shard make the run inconclusive (harness error), not violated']
 PAIRS = [('Water', 'Octane'), ('Water', 'Hexane'), ('Water', 'Toluene'), ('Water', 'Butanol'), ('Water', 'Octanol'), ('Water', 'EthylAcetate')]
 EXTRA = ('Ethanol', 'Methanol', 'Acetone', 'Propanol', 'AceticAcid')
 _th = {}
@@ -39,7 +48,10 @@ def required(tier):
             # round 5
             'sle:computed-returned', 'sle:computed-returned:ideal-package', 'sle:computed-returned:activity-model', 'sle:eutectic-model', 'sle:eutectic-model:activity_coefficient', 'sle3', 'sle3:ramp', 'sle3:pkg=default', 'sle3:pkg=unifac',
             'sle3:pkg=ideal-gamma', 'sle3:pkg=ideal()', 'sle3:obj=multistream', 'sle3:obj=stream', 'sle3:obj=indexer', 'sle3:spec=H', 'sle3:given', 'sle3:given-boundary', 'sle3:history', 'sle3:computed-after-given', 'sle3:absent-member',
-            'sle3:act-changed', 'sle3:act-by-constructor', 'sle3:solvents-changed', 'sle3:member-added', 'sle3:no-reset', 'sle3:supersaturated-start']
+            'sle3:act-changed', 'sle3:act-by-constructor', 'sle3:solvents-changed', 'sle3:member-added', 'sle3:no-reset', 'sle3:supersaturated-start',
+            # round 6 (oracle audit)
+            'no-split', 'lle:one-liquid', 'lle:certificate-searched', 'equal-activity:per-component', 'equal-activity:pseudo-equilibrium:gibbs-classified', 'history:class-from-inputs', 'history:method=pseudo equilibrium', 'history:method=shgo',
+            'scale:method=pseudo equilibrium', 'scale:method=shgo', 'history:last-call-near', 'sle:probes-reached', 'sle:fixed-point-model', 'sle:fixed-point-model:sle', 'sle:fixed-point-model:sle2', 'sle:fixed-point-model:sle3', 'lle:floor-checked', 'refusal-ceiling-checked']
 
 
 def thermo(ids, gamma=None):
@@ -113,8 +125,12 @@ def more_lle(rng, c):
     r = rng.random()
     if r < 0.45:
         # the last earlier call is on / next to the judged point: exactly the same, within the cache tolerances (1e-3 K, 1e-5 in mole fraction), just outside them, or the same composition at another scale
-        kind = rng.choice(['same', 'same', 'within', 'within', 'outside', 'scaled', 'same-T-other-z', 'same-T-other-z'])
+        # ('near', round 6: the same feed 0.05 - 1.5 K away - far outside the 1e-3 K tolerance, but close enough that a solver comparing sloppily would reuse its coefficients, and far enough for the split to differ)
+        kind = rng.choice(['same', 'same', 'within', 'within', 'outside', 'scaled', 'same-T-other-z', 'same-T-other-z', 'near'])
         h = {'kind': kind, 'dT': 0.0, 'mult': None}
+        if kind == 'near':
+            h['dT'] = rng.choice([-1, 1]) * round(rng.uniform(0.05, 1.5), 3)
+            if rng.random() < 0.6: c['method'] = rng.choice(['shgo', 'shgo', 'differential evolution'])     # the default method is masked by its recorded finding
         if kind == 'within': h['dT'] = rng.choice([0.0, 5e-4, -5e-4]); h['mult'] = [1 + rng.choice([0.0, 5e-6, -5e-6]) for _ in ids]
         elif kind == 'outside': h['dT'] = rng.choice([2e-3, -2e-3, 0.0]); h['mult'] = [1 + rng.choice([2e-5, -2e-5]) for _ in ids] if (h['dT'] == 0.0 or rng.random() < 0.5) else None
         elif kind == 'scaled': h['k'] = round(10 ** rng.uniform(-2, 2), 5)
@@ -142,25 +158,163 @@ def more_lle(rng, c):
     return c
 
 
+NUMERIC = (FloatingPointError,)
+
+
 def numeric_failure(e):
-    # C15 speaks about calculations that return; a raise (documented refusal or numerical failure inside a solver) is counted, not judged.
-    # Programming errors in the call path are still reported.
-    return not isinstance(e, (TypeError, AttributeError, KeyError, IndexError, NameError, UnboundLocalError))
+    # C15 speaks about calculations that return; a numerical failure inside a solver is counted, not judged - but only the type the solvers are known to end in (numpy's
+    # invalid / divide set to 'raise' by the library: FloatingPointError); every other raise (ValueError, RuntimeError, LinAlgError, programming errors ...) is reported.
+    # The counted raises have a ceiling per shard (see ceilings()).
+    return isinstance(e, NUMERIC)
+
+
+def refusal(rec, where, e):
+    """count a tolerated raise by where it happened and by the library function it came from (mechanism, not input)"""
+    from vt.core import exc_key
+    rec.refuse(f'{where}: {exc_key(e)}')
+    rec.hit('raised:' + where.split(' ')[0])
+
+
+# ---------------------------------------------------------------------------------------------------------------------------------------------------------
+# independent models (nothing below calls the solvers under test; the only library objects used are the activity-coefficient functions of the property package)
+
+_G = {}
+
+
+def gamma_of(th):
+    k = id(th)
+    if k not in _G: _G[k] = (th, th.Gamma(th.chemicals))
+    return _G[k][1]
+
+
+def activities(G, n, T):
+    x = n / n.sum()
+    return x * G(x.copy(), T)
+
+
+def gibbs_mix(G, n, T):
+    """Gibbs energy of mixing / RT of one liquid holding the amounts n: sum n_i ln(x_i gamma_i)"""
+    if n.sum() <= 0: return 0.0
+    a = activities(G, n, T); m = n > 0
+    return float((n[m] * np.log(a[m])).sum())
+
+
+def activity_mismatch(G, l, L, T):
+    """(per component, relative to the larger activity of that component; relative to the largest activity of all [the form used before round 6]) over the chemicals present in both liquids"""
+    xl = l / l.sum(); xL = L / L.sum()
+    al = xl * G(xl.copy(), T); aL = xL * G(xL.copy(), T)
+    m = (xl >= 1e-8) & (xL >= 1e-8)
+    if not m.any(): return 0.0, 0.0, al, aL
+    d = np.abs(al - aL)[m]
+    return float((d / np.maximum(al, aL)[m]).max()), float(d.max() / max(al[m].max(), aL[m].max())), al, aL
+
+
+def size_class(dev):
+    return '<1e-2' if dev < 1e-2 else '<1e-1' if dev < 1e-1 else '<0.5' if dev < 0.5 else '>=0.5'
+
+
+def rachford_rice(z, K):
+    """fraction of the K-enriched liquid in (0, 1) by bisection; None when the balance has no root inside"""
+    m = z > 0
+    z = z[m]; K = K[m]
+    f = lambda p: float((z * (K - 1) / (1 + p * (K - 1))).sum())
+    if not (f(0.0) > 0 and f(1.0) < 0): return None
+    lo, hi = 0.0, 1.0
+    for _ in range(100):
+        mid = 0.5 * (lo + hi)
+        if f(mid) > 0: lo = mid
+        else: hi = mid
+        if hi - lo < 1e-15: break
+    return 0.5 * (lo + hi)
+
+
+def own_lle(G, z, T, a, b, iters=300, tol=1e-10):
+    """successive substitution K <- gamma(x) / gamma(y) from a guess with chemical a concentrated in one liquid and b in the other; (l, L) per mole of feed or None"""
+    x = z.copy(); y = z.copy(); x[a] = 0.99; y[a] = 1e-3; x[b] = 1e-3; y[b] = 0.99
+    x /= x.sum(); y /= y.sum()
+    m = z > 0
+    K = G(x.copy(), T) / G(y.copy(), T)
+    for _ in range(iters):
+        phi = rachford_rice(z, K)
+        if phi is None: return None
+        x = z / (1 + phi * (K - 1)); y = K * x
+        x = x / x.sum(); y = y / y.sum()
+        Kn = G(x.copy(), T) / G(y.copy(), T)
+        if not np.isfinite(Kn[m]).all() or (Kn[m] <= 0).any(): return None
+        d = float(np.abs(np.log(Kn[m]) - np.log(K[m])).max())
+        K = Kn
+        if d < tol:
+            phi = rachford_rice(z, K)
+            if phi is None: return None
+            x = z / (1 + phi * (K - 1)); y = K * x
+            return x * (1 - phi), y * phi
+    return None
+
+
+def split_certificate(rec, th, z, T):
+    """independent evidence that the feed z (mole fractions, zeros allowed) is not one stable liquid: a two-liquid state with equal activities (found by own_lle from the two
+    chemicals heaviest by mass and from the first two of the case) whose Gibbs energy of mixing is lower than that of the homogeneous feed.
+    returns (decrease per mole of feed in RT, l, L) of the best state found, or None (no certificate: NOT a proof of stability)"""
+    G = gamma_of(th)
+    rec.hit('lle:certificate-searched')
+    try:
+        with np.errstate(all='ignore'):
+            order = np.argsort(z * th.chemicals.MW)
+            pairs = [(int(order[-1]), int(order[-2]))]
+            if set(pairs[0]) != {0, 1}: pairs.append((0, 1))
+            Gf = gibbs_mix(G, z, T)
+            best = None
+            for a, b in pairs:
+                if z[a] <= 0 or z[b] <= 0: continue
+                r = own_lle(G, z, T, a, b)
+                if r is None: continue
+                l, L = r
+                if not (l.sum() > 0 and L.sum() > 0) or np.abs(l / l.sum() - L / L.sum()).max() < 1e-3: continue
+                if activity_mismatch(G, l, L, T)[0] > 1e-6: continue
+                d = Gf - (gibbs_mix(G, l, T) + gibbs_mix(G, L, T))
+                if d == d and (best is None or d > best[0]): best = (float(d), l, L)
+        if best is not None: rec.hit('lle:certificate-found')
+        return best
+    except (FloatingPointError, ZeroDivisionError):
+        rec.hit('lle:certificate-search-failed')
+        return None
+
+
+def same_composition(r, tol):
+    l, L = r['l'], r['L']
+    if not (l.sum() > 0 and L.sum() > 0): return False
+    return bool(np.abs(l / l.sum() - L / L.sum()).max() <= tol)
 
 
 def trivial(r):
     """both liquid rows hold material of one and the same composition (the 'trivial solution': a homogeneous liquid divided arbitrarily)"""
-    l, L = r['l'], r['L']
-    if not (l.sum() > 0 and L.sum() > 0): return False
-    return bool(np.abs(l / l.sum() - L / L.sum()).max() <= 1e-6)
+    return same_composition(r, 1e-6)
+
+
+def trivial_class(*results):
+    """key suffix for a difference that goes back to the trivial solution: '/trivial-solution' (mole fractions of the two rows equal within 1e-6, as before round 6) or
+    '/near-trivial-solution' (within 1e-4: the Gibbs-minimising methods stop on the objective, which is flat along the trivial ridge - all K within 1e-3 of 1)"""
+    if any(trivial(r) for r in results): return '/trivial-solution'
+    if any(same_composition(r, 1e-4) for r in results): return '/near-trivial-solution'
+    return ''
+
+
+def free_labels(ids, flows, top):
+    """which liquid is called 'L' is only determined when a top chemical is named AND present in the feed (an absent one has mass fraction 0 in both liquids)"""
+    return top is None or not flows[ids.index(top)] > 0
 
 
 def gibbs_gap(th, ids, z, L, T):
-    """Gibbs energy (per mole of feed, the solver's own objective) of the returned split minus that of the nearest local minimum found by polishing it with Nelder-Mead."""
+    """Gibbs energy (per mole of feed; computed from the package's activity coefficients by gibbs_mix, not by the solver's objective function) of the returned split minus that of
+    the nearest local minimum found by polishing it with Nelder-Mead."""
     from scipy.optimize import minimize
-    from thermosteam.equilibrium.lle import lle_objective_function
-    G = th.Gamma(th.chemicals)
-    f = lambda x: float(lle_objective_function(np.clip(np.asarray(x, float), 0, z).copy(), z, T, G.f, G.args))
+    G = gamma_of(th)
+    z = np.asarray(z, float)
+    def f(x):
+        x = np.clip(np.asarray(x, float), 0, z)
+        with np.errstate(all='ignore'):
+            v = gibbs_mix(G, x, T) + gibbs_mix(G, z - x, T)
+        return v if v == v else 1e300
     g0 = f(L)
     res = minimize(f, L, method='Nelder-Mead', bounds=[(0, zi) for zi in z], options=dict(xatol=1e-12, fatol=1e-14, maxiter=20000, maxfev=40000))
     return g0 - float(res.fun)
@@ -191,39 +345,65 @@ def run_lle(case, rec):
     if case.get('comp'): rec.hit('composition:' + case['comp'])
     if any(v == 0 for v in case['flows']): rec.hit('composition:zero-flow-member')
     if 'Water' not in [i for i, v in zip(ids, case['flows']) if v]: rec.hit('composition:water-free')
+    rec.hit('lle-case')
     try:
         ref = fresh_lle(th, ids, flows, T, method, top)
     except Exception as e:
-        if numeric_failure(e): rec.refuse(type(e).__name__); return
+        if numeric_failure(e): refusal(rec, 'lle', e); return
         rec.exception('lle', e, what=f'lle({method}) on {ids} raised {type(e).__name__}: {str(e)[:140]}'); return
     r = rows(ref)
     l, L = r['l'], r['L']
     F = flows.sum()
     two = l.sum() > 1e-9 * F and L.sum() > 1e-9 * F
+    G = gamma_of(th)
+    # a result that is one liquid - a single non-empty row, or two rows of one and the same composition - is not judged by the two-liquid clauses: it is judged here, against an
+    # independent certificate that the feed does split (a two-liquid state of equal activities with a lower Gibbs energy than the homogeneous feed)
+    one_composition = bool(two and same_composition(r, 1e-4))
+    if not two or one_composition:
+        rec.hit('lle:one-liquid' if not two else 'lle:two-rows-of-one-composition')
+        cert = split_certificate(rec, th, flows / F, T)
+        dG = cert[0] if cert else 0.0
+        rec.check(dG <= 1e-4, 'no-split', mtag + ('/one-liquid' if not two else '/two-rows-of-one-composition'),
+                  f'lle({method}) at T={T} returns ' + ('one liquid' if not two else 'two liquids of one and the same composition') + f' for a feed that splits: the two-liquid state l={None if not cert else cert[1].tolist()}, '
+                  f'L={None if not cert else cert[2].tolist()} (per mole of feed) has equal activities and a Gibbs energy of mixing lower than the homogeneous feed by {dG:.3g} RT per mole of feed (ids={ids}, feed={flows.tolist()})', residual=dG)
     # conservation and sign are C03's; here: equal activities
     if two:
-        G = th.Gamma(th.chemicals)
-        xl = l / l.sum(); xL = L / L.sum()
-        al = xl * G(xl.copy(), T); aL = xL * G(xL.copy(), T)
-        m = (xl >= 1e-8) & (xL >= 1e-8)
-        dev = float(np.abs(al - aL)[m].max() / max(al[m].max(), aL[m].max())) if m.any() else 0.0
+        rec.hit('lle:two-liquids')
+        with np.errstate(all='ignore'):
+            dev, dev_all, al, aL = activity_mismatch(G, l, L, T)
+        rec.hit('equal-activity:per-component')
         gibbs = method in ('shgo', 'differential evolution')
         bound = 1e-3
         sfx = ''
         if dev > bound and gibbs:
+            # only the per-component form (new in round 6) fails: the mismatch sits in a component whose activity is small against the largest one
+            if dev_all <= bound: sfx = '/minor-component'
             # mechanism of the mismatch, by what can be observed on the result:
             #  - a chemical sits exactly at the optimiser's starting point (half of it in each liquid): the optimiser never moved that variable;
             #  - otherwise the Gibbs energy of the returned split (the solver's objective, per mole of feed) is compared with the minimum obtained by
             #    polishing it: within the configured tolerance (f_tol / tol = 1e-6) the optimiser stopped where it was told to, although the
             #    activities (of components that barely move the objective) still differ; beyond it the optimiser stopped early.
             frac = L / (l + L + 1e-300)
-            if any(flows[k_] > 0 and abs(frac[k_] - 0.5) <= 1e-6 for k_ in range(len(ids))): sfx = '/component-left-at-midpoint'
+            if any(flows[k_] > 0 and abs(frac[k_] - 0.5) <= 1e-6 for k_ in range(len(ids))): sfx += '/component-left-at-midpoint'
             else:
                 gap = gibbs_gap(th, ids, flows / F, L / F, T)
                 rec.hit('gibbs-gap-evaluated')
                 # the optimisers stop on the CHANGE of the objective falling below 1e-6, which leaves the distance to the minimum within a small multiple of it
-                sfx = '/within-objective-tolerance' if gap <= 1e-5 else '/gibbs-gap>1e-5'
-        rec.check(dev <= bound, 'equal-activity', mtag + sfx, f'lle({method}) at T={T}: activities differ between the liquids by {dev:.3g} of the largest activity (l: {al.tolist()}, L: {aL.tolist()}; ids={ids})', residual=dev)
+                sfx += '/within-objective-tolerance' if gap <= 1e-5 else '/gibbs-gap>1e-5'
+        elif dev > bound:
+            # the default method (recorded finding: its partition coefficients are never iterated): the size class of the mismatch and the Gibbs energy of the returned split against the
+            # homogeneous feed and against the independent equilibrium go into the key, so that the recorded finding is a distribution over classes, not a blanket
+            sfx = '/dev' + size_class(dev)
+            with np.errstate(all='ignore'):
+                Gf = gibbs_mix(G, flows / F, T); Gs = gibbs_mix(G, l / F, T) + gibbs_mix(G, L / F, T)
+            cert = split_certificate(rec, th, flows / F, T)
+            Gref = Gf - max(cert[0], 0.0) if cert else Gf
+            rec.hit('equal-activity:pseudo-equilibrium:gibbs-classified')
+            if not (Gs - Gf <= 0.2): sfx += '/gibbs-above-feed>0.2'
+            elif Gs > Gf + 1e-9: sfx += '/gibbs-above-feed'
+            if not (Gs - Gref <= 0.5): sfx += '/gibbs-gap>0.5'
+        rec.check(dev <= bound, 'equal-activity', mtag + sfx, f'lle({method}) at T={T}: activities of a chemical differ between the liquids by {dev:.3g} of its larger activity ({dev_all:.3g} of the largest activity of all) '
+                  f'(l: {al.tolist()}, L: {aL.tolist()}; ids={ids})', residual=dev)
         # top chemical has a mass fraction in L at least as high as in l
         if top is not None:
             MW = th.chemicals.MW; j = ids.index(top)
@@ -237,17 +417,20 @@ def run_lle(case, rec):
             # resolution of each method: fixed-point iteration 1e-7, shgo f_tol 1e-6 -> 1e-5, stochastic optimiser 2e-2 (all relative to the feed)
             tol = {'pseudo equilibrium': 1e-7, 'shgo': 1e-5, 'differential evolution': 2e-2}[method] * F * k
             ok = np.allclose(rs['l'], k * l, rtol=0, atol=tol) and np.allclose(rs['L'], k * L, rtol=0, atol=tol)
-            if not ok and top is None:
+            if not ok and free_labels(ids, flows, top):
                 ok = np.allclose(rs['L'], k * l, rtol=0, atol=tol) and np.allclose(rs['l'], k * L, rtol=0, atol=tol)
-            sfx = '/trivial-solution' if (not ok and (trivial(rs) or trivial({'l': l, 'L': L}))) else ''
-            rec.check(ok, 'scale', mtag + sfx, f'lle({method}) of {k}*feed is not {k} times the split of the feed: l {rs["l"].tolist()} vs {(k * l).tolist()}')
+            sfx = trivial_class(rs, {'l': l, 'L': L}) if not ok else ''
+            sdev = float(min(np.abs(rs['l'] - k * l).max(), np.abs(rs['L'] - k * l).max() if free_labels(ids, flows, top) else np.inf) / (F * k))
+            if method == 'pseudo equilibrium' and not ok: sfx += '/dev' + size_class(sdev)
+            rec.hit('scale:' + mtag)
+            rec.check(ok, 'scale', mtag + sfx, f'lle({method}) of {k}*feed is not {k} times the split of the feed (differs by {sdev:.3g} of the feed): l {rs["l"].tolist()} vs {(k * l).tolist()}', residual=sdev)
         except Exception as e:
-            if numeric_failure(e): rec.refuse(type(e).__name__)
+            if numeric_failure(e): refusal(rec, 'lle scaled-feed', e)
             else: rec.exception('scale', e, what=f'lle of the scaled feed raised {type(e).__name__}: {str(e)[:120]}')
         rec.mark_nontrivial(case_hash(case))
     try: lle_forms(case, rec, th, ids, flows, T, method, top, l, L, F, mtag)
     except Exception as e:
-        if numeric_failure(e): rec.refuse('call form: ' + type(e).__name__)
+        if numeric_failure(e): refusal(rec, 'lle call-form', e)
         else: rec.exception('call-form/' + mtag, e, what=f'lle call form ({method}) on {ids} raised {type(e).__name__}: {str(e)[:120]}')
     # history: earlier calls on the same stream, then the judged call
     if case['hist']:
@@ -256,6 +439,7 @@ def run_lle(case, rec):
         try:
             decreased = False
             Tprev = None
+            remembered = None        # (T, mole fractions, chemicals) of the last earlier call that reached the equilibrium code (two or more chemicals present): what the solver can remember
             for h in case['hist']:
                 f2 = flows * np.array(h['mult']) if h['mult'] else flows
                 if h.get('k'): f2 = f2 * h['k']
@@ -268,6 +452,8 @@ def run_lle(case, rec):
                     lle(T + h['dT'], top_chemical=(h['top'] if 'top' in h else top))
                 lle.method = method
                 Tprev = T + h['dT']
+                p2 = f2 > 0
+                if p2.sum() > 1: remembered = (Tprev, f2[p2] / f2[p2].sum(), [i for i, v in zip(ids, f2) if v > 0])
                 if 'top' in h and h['top'] != top: rec.hit('history:top-changed')
                 if h.get('kind'): rec.hit('history:last-call-' + h['kind'])
             if Tprev is not None and T < Tprev: decreased = True
@@ -277,36 +463,44 @@ def run_lle(case, rec):
                 for i, v, d in zip(ids, flows, case['repool']):
                     if v and d: s.imol['L', i] = v * d; s.imol['l', i] = v - v * d
                 rec.hit('history:re-pooled')
-            # will the call take the cache-hit branch?  (same LLE chemicals, |dT| < 1e-3 K, every |dz| < 1e-5 against what the solver remembers)
+            # will the call take the cache-hit branch?  decided from the generated inputs alone, with the documented tolerances as constants (same chemicals, |dT| < 1e-3 K, every |dz| < 1e-5
+            # against the last call the solver can remember): reading the solver's own tolerances and remembered state would move the class together with a defect in them
             hsfx = ''
-            last = case['hist'][-1]
-            set_changed = bool(last['mult']) and any((m_ * v == 0) != (v == 0) for m_, v in zip(last['mult'], flows))
-            try:
-                pos = flows > 0
-                zj = flows[pos] / flows[pos].sum()
-                same_set = [c_.ID for c_ in lle._lle_chemicals] == [i for i, v in zip(ids, flows) if v]
-                if case['use_cache'] and same_set and abs(T - lle._T) < lle.temperature_cache_tolerance and (np.abs(lle._z_mol - zj) < lle.composition_cache_tolerance).all():
-                    hsfx = '/cache-hit'; rec.hit('history:cache-hit')
+            pos = flows > 0
+            zj = flows[pos] / flows[pos].sum()
+            present = [i for i, v in zip(ids, flows) if v]
+            same_set = remembered is not None and remembered[2] == present
+            set_changed = not same_set
+            rec.hit('history:class-from-inputs')
+            if same_set:
+                dT_ = abs(T - remembered[0]); dz_ = float(np.abs(remembered[1] - zj).max())
+                inside = dT_ < 1e-3 * (1 - 1e-6) and dz_ < 1e-5 * (1 - 1e-6)
+                outside = dT_ >= 1e-3 * (1 + 1e-6) or dz_ >= 1e-5 * (1 + 1e-6)
+                if case['use_cache'] and inside:
+                    hsfx = '/cache-hit'; rec.hit('history:cache-hit'); rec.hit('history:cache-hit:' + mtag)
                     # a pure query (update=False) in between must not have replaced what the solver remembers for this point: its own key, outside the recorded cache-hit finding
                     if any(h_.get('query') for h_ in case['hist']): hsfx = '/hit-after-query'
-                else:
-                    set_changed = not same_set
-                    if set_changed: rec.hit('history:chemical-set-changed')
-            except Exception: pass
+                elif case['use_cache'] and not outside:
+                    hsfx = '/at-the-edge-of-the-cache-tolerances'; rec.hit('history:cache-tolerance-edge')
+                elif case['use_cache']: rec.hit('history:use_cache:outside-tolerances')
+            else: rec.hit('history:chemical-set-changed')
             lle(T, top_chemical=top, use_cache=case['use_cache'])
         except Exception as e:
-            if numeric_failure(e): rec.refuse(type(e).__name__); return
+            if numeric_failure(e): refusal(rec, 'lle history', e); return
             rec.exception('history/' + mtag, e, what=f'lle history ({method}) raised {type(e).__name__}: {str(e)[:120]}'); return
         rh = rows(s)
         tol = {'pseudo equilibrium': 1e-6, 'shgo': 1e-5, 'differential evolution': 2e-2}[method] * F
         ok = np.allclose(rh['l'], l, rtol=0, atol=tol) and np.allclose(rh['L'], L, rtol=0, atol=tol)
-        if not ok and top is None:
+        if not ok and free_labels(ids, flows, top):
             ok = np.allclose(rh['L'], l, rtol=0, atol=tol) and np.allclose(rh['l'], L, rtol=0, atol=tol)
         dev = float(min(np.abs(rh['l'] - l).max(), np.abs(rh['L'] - l).max()) / F)
         ctag = 'use_cache' if case['use_cache'] else 'no-cache'
         rec.hit('history:' + ctag)
+        rec.hit('history:' + mtag)
         if decreased: rec.hit('history:T-decrease')
-        tsfx = '/trivial-solution' if (not ok and method != 'pseudo equilibrium' and (trivial(rh) or trivial({'l': l, 'L': L}))) else ''
+        tsfx = trivial_class(rh, {'l': l, 'L': L}) if (not ok and method != 'pseudo equilibrium') else ''
+        # the default method (recorded finding: the result depends on the remembered coefficients): the size class of the difference goes into the key
+        if not ok and method == 'pseudo equilibrium': tsfx += '/dev' + size_class(dev)
         # when the chemicals present differ from those of the previous call the solver forgets its coefficients: the call is that of a fresh solver (judged under its own clause)
         rec.check(ok, 'history-reset' if set_changed else 'history', f'{mtag}/{ctag}' + ('/T-decrease' if decreased else '') + hsfx + tsfx,
                   f'lle({method}, use_cache={case["use_cache"]}) at T={T} after {len(case["hist"])} earlier calls (last at T={Tprev}) differs from a fresh solver by {dev:.3g} of the feed: l {rh["l"].tolist()} vs fresh {l.tolist()}',
@@ -376,6 +570,47 @@ def judge_eutectic(rec, chem, T, act, xl, solid, x_max, tail, what):
               residual=max(0.0, xl - lim))
 
 
+def require_probes(rec, applied, solved, what):
+    """every computed, non-pure call that returned must have passed both observation points (the solubility solve and the place where a solubility is applied to the rows): a path
+    of the library that computes or applies a solubility elsewhere would otherwise leave the clause silently unjudged.  Not a statement about the property: the run is inconclusive."""
+    if applied.get('n', 0) >= 1 and solved.get('n', 0) >= 1:
+        rec.hit('sle:probes-reached'); return True
+    missing = ', '.join(n_ for n_, d_ in (('SLE._update_solubility', applied), ('SLE._solve_x', solved)) if d_.get('n', 0) < 1)
+    rec.exception('sle:solubility/probe-not-reached', RuntimeError(f'probe-not-reached: {what} (computed solubility, solvent present) returned without passing {missing}'))
+    return False
+
+
+def judge_fixed_point(rec, th, chem, j, T, liquid, solid, kind, tail, what, applied=None):
+    """activity model, temperature given, solid left, liquid other than the solute present: the liquid is saturated, so its solute mole fraction x is the solubility the call computed,
+    and that is a fixed point of x = eutectic solubility(T, activity coefficient of the solute at the liquid's composition) - the relation SLE documents (activity_coefficient: 'of the
+    solute in the liquid').  The activity coefficient is taken from the package for ALL its chemicals at the liquid's mole fractions (absent ones at zero), independent of the
+    solver's index bookkeeping; the iteration stops on a change of x below 1e-6."""
+    liq = float(liquid.sum())
+    if not (liq > 0 and solid > 0 and liquid[j] > 0 and liq - liquid[j] > 0): return
+    x = liquid / liq
+    try:
+        with np.errstate(all='ignore'):
+            g = float(gamma_of(th)(x.copy(), T)[j])
+        lim = eutectic_bound(chem, T, g)
+    except (FloatingPointError, ZeroDivisionError, OverflowError): rec.hit('sle:fixed-point-model:not-evaluable'); return
+    if not (lim == lim and g == g and g > 0): rec.hit('sle:fixed-point-model:not-evaluable'); return
+    xl = float(x[j])
+    rec.hit('sle:fixed-point-model'); rec.hit('sle:fixed-point-model:' + kind)
+    res = abs(xl - lim)
+    # mechanism (observed on the call, not a reference): the solubility iteration of the call applied 200 or more trial solubilities, i.e. it ran into its iteration limit (100 accelerated
+    # steps of two evaluations) and handed back an iterate that is not a fixed point
+    lim_sfx = '/iteration-limit-reached' if (applied or {}).get('n', 0) >= 200 else ''
+    rec.check(res <= 1e-4 * max(xl, lim) + 2e-5, 'sle:solubility', f'eutectic-model/activity-model{tail}/' + ('above-model' if xl > lim else 'below-model') + lim_sfx,
+              f'{what}: solid solute remains ({solid!r}) but the liquid mole fraction of the solute {xl!r} is not the eutectic solubility {lim!r} for the activity coefficient {g!r} the package gives the solute in that liquid at T={T!r}',
+              residual=res)
+
+
+def warranted_refusal(e, rest_liquid, pure):
+    """the one raise of the solid-liquid solver that the inputs explain: the activity-model solubility iteration divides by the amount of liquid, which is zero when nothing but the solute
+    could be liquid (another chemical is present only as a solid) - FloatingPointError"""
+    return isinstance(e, FloatingPointError) and rest_liquid == 0 and not pure
+
+
 def run_sle(case, rec):
     ids = case['ids']; th = thermo(ids, case.get('gamma')); tmo.settings.set_thermo(th)
     solute = ids[0]; T = case['T']
@@ -398,6 +633,7 @@ def run_sle(case, rec):
             try: s.sle(solute, T=h['T'], **hk)
             except Exception as e:
                 if not numeric_failure(e): raise
+                refusal(rec, 'sle earlier-call', e)
             start(s)
             rec.hit('sle:history-step')
             if not any(h['mult']) and len(ids) > 1: rec.hit('sle:history:pure-then-solvent')
@@ -408,7 +644,7 @@ def run_sle(case, rec):
         s.sle(solute, T=T, **kw)
         applied = dict(_APPLIED); solved = dict(_SOLVED)
     except Exception as e:
-        if numeric_failure(e): rec.refuse(f'sle refused: {type(e).__name__}'); return
+        # (the judged call always has every solvent of the case in the liquid: no raise is explained by the inputs)
         rec.exception('sle', e, what=f'sle on {ids} (solubility={case["solubility"]}) raised {type(e).__name__}: {str(e)[:140]}'); return
     after = rows(s)
     j = 0
@@ -422,8 +658,8 @@ def run_sle(case, rec):
             rec.check(dev <= 1e-7, 'sle:history', 'given' if kw else 'computed', f'sle({solute}, T={T}{", solubility" if kw else ""}) after {len(case.get("shist", []))} earlier calls differs from a fresh stream by {dev:.3g} of the solute: '
                       f's/l = {after["s"][j]!r}/{after["l"][j]!r} vs fresh {rf["s"][j]!r}/{rf["l"][j]!r} (earlier calls: {case.get("shist")})', residual=dev)
         except Exception as e:
-            if not numeric_failure(e): raise
-            rec.refuse('fresh sle refused')
+            if numeric_failure(e): refusal(rec, 'sle fresh-solver', e)
+            else: rec.exception('sle:history/fresh-solver', e, what=f'sle({solute}, T={T}) by a fresh solver on a fresh stream raised {type(e).__name__}: {str(e)[:140]} (the call after the earlier calls returned)')
     others_same = all(np.array_equal(np.delete(after[p], j), np.delete(before[p], j)) for p in ('s', 'l'))
     rec.check(others_same, 'sle:solute-only', 'rows', f'sle changed chemicals other than the solute: before {before} after {after}')
     tot = after['s'][j] + after['l'][j]
@@ -437,6 +673,7 @@ def run_sle(case, rec):
     if kw:
         sol = case['solubility']
     else:
+        require_probes(rec, applied, solved, f'sle({solute}, T={T}) on {ids}')
         sol = applied.get('x')       # the solubility the solver computed and applied last in the judged call (probe on SLE._update_solubility)
     if sol is not None:
         slack_ = 1e-9
@@ -450,11 +687,13 @@ def run_sle(case, rec):
         hs = '/after-earlier-calls' if (case.get('shist') or case['prior']) else ''
         judge_returned(rec, solved, xl, after['s'][j], x_max, 'ideal-package' if case.get('gamma') == 'ideal' else 'activity-model', hs, f'sle({solute}, T={T}) on {ids}')
         if case.get('gamma') == 'ideal': judge_eutectic(rec, th.chemicals[solute], T, None, xl, after['s'][j], x_max, hs, f'sle({solute}, T={T}) on {ids}')
+        else: judge_fixed_point(rec, th, th.chemicals[solute], j, T, after['l'], after['s'][j], 'sle', hs, f'sle({solute}, T={T}) on {ids}', applied)
     if 0 < after['l'][j] < present: rec.mark_nontrivial(case_hash(case))
     elif after['l'][j] in (0, present): rec.mark_nontrivial(case_hash((case['ids'], 'edge', round(T))))
 
 
 def same_split(ra, l, L, tol, top):
+    # (top: the named top chemical, or None when the labels are free - none named, or the named one absent from the feed)
     ok = np.allclose(ra['l'], l, rtol=0, atol=tol) and np.allclose(ra['L'], L, rtol=0, atol=tol)
     if not ok and top is None:
         ok = np.allclose(ra['L'], l, rtol=0, atol=tol) and np.allclose(ra['l'], L, rtol=0, atol=tol)
@@ -465,29 +704,30 @@ def lle_forms(case, rec, th, ids, flows, T, method, top, l, L, F, mtag):
     """other ways of making the same call: the feed pre-split over l / L, P given, single_loop, update=False"""
     tol = {'pseudo equilibrium': 1e-7, 'shgo': 1e-5, 'differential evolution': 2e-2}[method] * F
     base = {'l': l, 'L': L}
-    def tsfx(r): return '/trivial-solution' if (method != 'pseudo equilibrium' and (trivial(r) or trivial(base))) else ''
+    def tsfx(r): return trivial_class(r, base) if method != 'pseudo equilibrium' else ''
+    top_ = None if free_labels(ids, flows, top) else top
     if case.get('presplit'):
         r = rows(fresh_lle(th, ids, flows, T, method, top, presplit=case['presplit']))
-        ok = same_split(r, l, L, tol, top)
+        ok = same_split(r, l, L, tol, top_)
         rec.hit('feed:pre-split')
         rec.check(ok, 'pre-split', mtag + ('' if ok else tsfx(r)), f'lle({method}) at T={T} of a feed that starts distributed {case["presplit"]} over L / l differs from the same feed entirely in l: l {r["l"].tolist()} vs {l.tolist()} (ids={ids})')
     forms = case.get('forms') or {}
     if forms.get('P'):
         s = fresh_lle(th, ids, flows, T, method, top, P=forms['P']); r = rows(s)
-        ok = same_split(r, l, L, tol, top)
+        ok = same_split(r, l, L, tol, top_)
         rec.hit('form:P')
         rec.check(ok, 'call-form', f'{mtag}/P' + ('' if ok else tsfx(r)), f'lle({method}, T={T}, P={forms["P"]}) differs from the call without P: l {r["l"].tolist()} vs {l.tolist()} (ids={ids})')
     if forms.get('single_loop') and method == 'pseudo equilibrium':
         s = fresh_lle(th, ids, flows, T, method, top, single_loop=True); r = rows(s)
         rec.hit('form:single_loop')
-        rec.check(same_split(r, l, L, tol, top), 'call-form', f'{mtag}/single_loop', f'lle({method}, single_loop=True) at T={T} differs from the two-loop call: l {r["l"].tolist()} vs {l.tolist()} (ids={ids})')
+        rec.check(same_split(r, l, L, tol, top_), 'call-form', f'{mtag}/single_loop', f'lle({method}, single_loop=True) at T={T} differs from the two-loop call: l {r["l"].tolist()} vs {l.tolist()} (ids={ids})')
         if r['l'].sum() > 1e-9 * F and r['L'].sum() > 1e-9 * F:
-            G = th.Gamma(th.chemicals)
-            xl = r['l'] / r['l'].sum(); xL = r['L'] / r['L'].sum()
-            al = xl * G(xl.copy(), T); aL = xL * G(xL.copy(), T)
-            m = (xl >= 1e-8) & (xL >= 1e-8)
-            dev = float(np.abs(al - aL)[m].max() / max(al[m].max(), aL[m].max())) if m.any() else 0.0
-            rec.check(dev <= 1e-3, 'equal-activity', mtag, f'lle({method}, single_loop=True) at T={T}: activities differ between the liquids by {dev:.3g} of the largest activity (l: {al.tolist()}, L: {aL.tolist()}; ids={ids})', residual=dev)
+            G = gamma_of(th)
+            with np.errstate(all='ignore'):
+                dev, dev_all, al, aL = activity_mismatch(G, r['l'], r['L'], T)
+            rec.hit('equal-activity:single_loop')
+            rec.check(dev <= 1e-3, 'equal-activity', mtag + ('/single_loop/dev' + size_class(dev) if dev > 1e-3 else ''), f'lle({method}, single_loop=True) at T={T}: activities of a chemical differ between the liquids by {dev:.3g} of its larger activity '
+                      f'({dev_all:.3g} of the largest activity of all) (l: {al.tolist()}, L: {aL.tolist()}; ids={ids})', residual=dev)
     if forms.get('update_false') and method != 'differential evolution':
         # update=False returns (chemicals, K, phase fraction) instead of writing the split: they must be those of the writing call
         ref = fresh_lle(th, ids, flows, T, method, top)
@@ -579,7 +819,7 @@ def run_sle2(case, rec):
             sle(solute, T=T, **kw)
             applied = dict(_APPLIED); solved = dict(_SOLVED)
     except Exception as e:
-        if numeric_failure(e): rec.refuse(f'sle refused: {type(e).__name__}'); return
+        if warranted_refusal(e, float(before['l'].sum() - before['l'][j]), pure): refusal(rec, 'sle no-liquid-but-the-solute', e); return
         rec.exception('sle', e, what=f'sle({solute}, {case["spec"]}=..., {kw}) on {ids} raised {type(e).__name__}: {str(e)[:140]}'); return
     after = rows(s)
     rec.hit('sle2')
@@ -615,9 +855,8 @@ def run_sle2(case, rec):
     slack = 1e-9
     if given: sol = case['solubility']
     else:
-        try:
-            sol = applied.get('x')       # the solubility the solver computed and applied last in the judged call (probe on SLE._update_solubility)
-        except Exception: sol = None
+        require_probes(rec, applied, solved, f'sle({solute}, {case["spec"]} given) on {ids}')
+        sol = applied.get('x')       # the solubility the solver computed and applied last in the judged call (probe on SLE._update_solubility)
     if act and not given and sol is not None and case['spec'] == 'T':      # (with an H specification the last applied value belongs to the last temperature iterate)
         # user activity coefficient with the ideal package: the eutectic solubility with that coefficient
         from chemicals import solubility_eutectic
@@ -643,6 +882,7 @@ def run_sle2(case, rec):
         tl = '/' + tag + ('/H-spec' if case['spec'] == 'H' else '')
         judge_returned(rec, solved, xl, after['s'][j], x_max, 'ideal-package' if case.get('gamma') == 'ideal' else 'activity-model', tl, f'sle({solute}, {case["spec"]} given) on {ids}')
         if case.get('gamma') == 'ideal' and case['spec'] == 'T': judge_eutectic(rec, chem, Tend, act, xl, after['s'][j], x_max, '/' + tag, f'sle({solute}, T={Tend!r}) on {ids}')
+        elif case['spec'] == 'T': judge_fixed_point(rec, th, chem, j, Tend, after['l'], after['s'][j], 'sle2', '/' + tag, f'sle({solute}, T={Tend!r}) on {ids}', applied)
     if 0 < after['l'][j] < present: rec.mark_nontrivial(case_hash(case))
     else: rec.mark_nontrivial(case_hash((case['ids'], 'edge', round(T))))
 
@@ -778,9 +1018,9 @@ def run_sle3(case, rec):
             else: ckw = dict(kw, T=T)
             _APPLIED.clear(); _SOLVED.clear()
             sle(solute, **ckw)
-            solved = dict(_SOLVED)
+            solved = dict(_SOLVED); applied = dict(_APPLIED)
         except Exception as e:
-            if numeric_failure(e): rec.refuse(f'sle3 refused: {type(e).__name__}'); return
+            # (a liquid other than the solute is present whenever the call is not the pure-solute one: no raise is explained by the inputs)
             rec.exception('sle', e, what=f'sle({solute}, {spec} given, {kw}) on {ids} ({pkg}, {kind}, step {k}) raised {type(e).__name__}: {str(e)[:140]}'); return
         after = rows_of(imol)
         Tend = float(tc.T)
@@ -807,8 +1047,10 @@ def run_sle3(case, rec):
                           f'{what}: liquid mole fraction of the solute {xl!r} exceeds the given solubility {sol!r} (solid left: {solid!r}; all dissolved would be {x_all!r})', residual=max(0.0, xl - sol))
                 given_before = True
             else:
+                require_probes(rec, applied, solved, what)
                 judge_returned(rec, solved, xl, solid, x_all, 'ideal-package' if ideal else 'activity-model', f'/ramp/pkg={pkg}/{kind}' + hs, what)
                 if ideal and spec == 'T': judge_eutectic(rec, chem, T, act, xl, solid, x_all, f'/ramp/pkg={pkg}/{kind}', what)
+                elif spec == 'T': judge_fixed_point(rec, th, chem, j, T, after['l'], solid, 'sle3', f'/ramp/pkg={pkg}/{kind}', what, applied)
                 if given_before: rec.hit('sle3:computed-after-given')
             if 0 < after['l'][j] < present: nontrivial = True
         if k:
@@ -826,8 +1068,8 @@ def run_sle3(case, rec):
                 rec.check(dev <= 1e-7, 'sle:history', 'ramp/' + hk, f'{what} after {k} earlier calls on the same solver differs from a fresh solver on the same rows by {dev:.3g} of the solute: '
                           f's/l = {after["s"][j]!r}/{after["l"][j]!r} vs fresh {rf["s"][j]!r}/{rf["l"][j]!r} (steps: {case["steps"][:k + 1]})', residual=dev)
             except Exception as e:
-                if not numeric_failure(e): raise
-                rec.refuse('sle3: fresh solver refused')
+                if numeric_failure(e): refusal(rec, 'sle3 fresh-solver', e)
+                else: rec.exception('sle:history/fresh-solver', e, what=f'{what}: the same call by a fresh solver on the same rows raised {type(e).__name__}: {str(e)[:140]} (the call after the earlier calls returned)')
         if not given: computed_before = True
     if nontrivial: rec.mark_nontrivial(case_hash(case))
 
@@ -853,6 +1095,22 @@ REGRESSION = [
 ]
 
 
+def ceilings(rec):
+    """coverage floors and refusal ceilings of one shard.  They say nothing about the property itself: a shard that misses them makes the run inconclusive (harness error).
+    - two-liquid results per LLE case: 0.89 over the quick seeds 0-3 of the unchanged library (0.80 in the poorest shard); below 0.6 the two-liquid clauses (equal-activity, top-chemical, scale) lose their footing;
+    - counted raises: LLE 0.002 of the cases of the unchanged library, SLE (second chemical present as solid only) 0.002; ceilings 0.05 / 0.01 with a floor of 4 / 8 events."""
+    n_lle = rec.reach.get('lle-case', 0); n_two = rec.reach.get('lle:two-liquids', 0); n_ref = rec.reach.get('raised:lle', 0)
+    n_sle = rec.cases - n_lle
+    n_sref = sum(v for k, v in rec.reach.items() if k.startswith('raised:sle'))
+    rec.hit('lle:floor-checked'); rec.hit('refusal-ceiling-checked')
+    if n_lle >= 30 and n_two + n_ref < 0.6 * n_lle:
+        rec.exception('equal-activity/floor', RuntimeError(f'only {n_two} of {n_lle} liquid-liquid cases of this shard returned two liquids (floor 0.6): the two-liquid clauses are not exercised'))
+    if n_ref > max(4, 0.05 * n_lle):
+        rec.exception('lle/refusal-ceiling', RuntimeError(f'{n_ref} of {n_lle} liquid-liquid cases of this shard ended in a counted raise (ceiling 0.05): {rec.refusals}'))
+    if n_sref > max(8, 0.01 * n_sle):
+        rec.exception('sle/refusal-ceiling', RuntimeError(f'{n_sref} counted raises in {n_sle} solid-liquid cases of this shard (ceiling 0.01): {rec.refusals}'))
+
+
 def run(rec, rng, tier, shard, nshards):
     n = 120 if tier == 'quick' else 2000
     if shard == 0:
@@ -868,3 +1126,4 @@ def run(rec, rng, tier, shard, nshards):
         run_case(gen_sle2(rng), rec)
     for i in range(450 if tier == 'quick' else 6000):
         run_case(gen_sle3(rng), rec)
+    ceilings(rec)
